@@ -136,6 +136,33 @@ END_SCHEMA;
     for nm, st in stmts:
         out['g_stmt_' + nm] = ('SCHEMA g_stmt_%s;\nFUNCTION f (a : INTEGER; b : REAL; l : LIST OF REAL) : REAL;\n  LOCAL\n    x : REAL := 1.5;\n    i : INTEGER;\n    agg : LIST OF REAL := [];\n  END_LOCAL;\n  %s\n  RETURN (x);\nEND_FUNCTION;\n'
                                'PROCEDURE p (VAR r : REAL);\n  r := r + 1.5;\nEND_PROCEDURE;\nEND_SCHEMA;\n' % (nm, st))
+    # formal parameter lists: every sequence of 1-3 parameters x {by value, VAR} x {named type T, named type U, INTEGER} (procedures), and the same
+    # without VAR for functions
+    import itertools
+    procs = []
+    k = 0
+    for n in (1, 2, 3):
+        for vars_ in itertools.product((False, True), repeat=n):
+            for types in itertools.product(('tt', 'uu', 'INTEGER'), repeat=n):
+                if n == 3 and len(set(types)) == 3 and not any(vars_):
+                    continue
+                k += 1
+                ps = '; '.join('%sp%d : %s' % ('VAR ' if v else '', j, t) for j, (v, t) in enumerate(zip(vars_, types)))
+                procs.append('PROCEDURE pr%d (%s);\n  p0 := p0;\nEND_PROCEDURE;' % (k, ps))
+                if not any(vars_):
+                    procs.append('FUNCTION fn%d (%s) : INTEGER;\n  RETURN (1);\nEND_FUNCTION;' % (k, ps))
+    # the same parameter types written as one identifier list (a, b : T)
+    procs.append('PROCEDURE prl1 (a, b : tt; VAR c, d : tt; e : tt);\n  c := a;\nEND_PROCEDURE;')
+    procs.append('PROCEDURE prl2 (VAR a : tt; b : tt; VAR c : tt);\n  a := b;\nEND_PROCEDURE;')
+    out['g_params'] = 'SCHEMA g_params;\nTYPE tt = REAL; END_TYPE;\nTYPE uu = REAL; END_TYPE;\n' + '\n'.join(procs) + '\nEND_SCHEMA;\n'
+    # real literals: mantissas x every decimal exponent -40..40 (the printer chooses between plain and exponent form and trims zeros)
+    cons = []
+    k = 0
+    for mant in ('1.0', '1.5', '2.50', '9.75', '1.0000000001', '123.456'):
+        for ex in range(-40, 41):
+            k += 1
+            cons.append('  r%d : REAL := %sE%d;' % (k, mant, ex))
+    out['g_reals'] = 'SCHEMA g_reals;\nCONSTANT\n' + '\n'.join(cons) + '\nEND_CONSTANT;\nEND_SCHEMA;\n'
     return out
 
 
